@@ -130,6 +130,14 @@ abbrev Ignore := Option (List Gi.Pattern)
 def relJoin (base : RPath) (rel : List Name) : RPath :=
   if rel.isEmpty then base else { base with comps := base.comps ++ rel.map .name, trail := false }
 
+/-- the is-directory flag `ignore_filter` hands to the pattern matcher: the entry's OWN type as walkdir reports it
+(`entry.file_type().is_dir()`): a symbolic link counts as a directory only when the walk follows links -/
+def giIsDir (fs : Fs) (c : Cfg) (p : RPath) : Bool :=
+  match fs.lstat p with
+  | some (_, .dir _) => true
+  | some (_, .link _) => c.dereference && (match fs.stat p with | some (_, .dir _) => true | _ => false)
+  | _ => false
+
 /-- One entry of the walk at path `src ++ rel`; returns the operations for it and its subtree.
 `anc` = canonical paths of the directories being traversed (walkdir's loop check when following links).
 Structural on fuel (tree depth × fan-out is finite; fuel is a generous bound). -/
@@ -148,7 +156,7 @@ def walkEntry (fs : Fs) (c : Cfg) (gi : Ignore) (src tb : RPath) : (fuel : Nat) 
       -- with follow_links a dangling link is an error of the walk
       if lnode.isLink && c.dereference && followed.isNone then [.fail] else
       -- gitignore filter (never on the root)
-      let isDirForGi := fs.isDir epath
+      let isDirForGi := giIsDir fs c epath
       if depth > 0 && (match gi with | some ps => !Gi.keeps ps rel isDirForGi | none => false) then [] else
       -- xcp: dereference → canonicalize, then lstat
       let fromE : Except Errno RPath := if c.dereference then fs.canonicalize epath else .ok epath
